@@ -16,6 +16,8 @@ enum Outcome {
     Accept,
     Reject,
     Panic,
+    /// no result within the time limit: the compiler hangs (or recurses without end) on this input
+    Hang,
 }
 
 fn compile_bytes(src: &str) -> Option<Vec<u8>> {
@@ -66,7 +68,19 @@ fn search_sugar() -> Option<(String, String)> {
     None
 }
 
+/// every compilation runs in a thread of its own (with a large stack) and is given 20 s: a compiler
+/// that hangs on an input is an observation, not something that stalls the search
 fn compile(src: &str) -> Outcome {
+    let (tx, rx) = std::sync::mpsc::channel();
+    let s2 = src.to_string();
+    let _ = std::thread::Builder::new().stack_size(64 << 20).spawn(move || { let _ = tx.send(compile_here(&s2)); });
+    match rx.recv_timeout(std::time::Duration::from_secs(20)) {
+        Ok(o) => o,
+        Err(std::sync::mpsc::RecvTimeoutError::Timeout) => Outcome::Hang,
+        Err(_) => Outcome::Panic,
+    }
+}
+fn compile_here(src: &str) -> Outcome {
     let src = src.to_string();
     let r = std::panic::catch_unwind(move || {
         let path = PathBuf::from("/witness/main.sy");
